@@ -203,11 +203,21 @@ func cmdCheck(args []string) int {
 	}
 	// functions under contract for this property
 	var fuc []string
+	var soundOnly []string
 	keys := sortedKeys(l.byKey)
 	for _, key := range keys {
 		fn := l.byKey[key]
 		ct := l.bound[fn]
-		if !ct.HasProp(prop) {
+		if prop == "C02" {
+			// completeness of the whole circuit: every circuit function that has a COMPLETE-mode contract
+			if ct.Kind != "circuit" || ct.Flags["trusted"] || ct.Flags["interface"] {
+				continue
+			}
+			if ct.Flags["sound-only"] {
+				soundOnly = append(soundOnly, key)
+				continue
+			}
+		} else if !ct.HasProp(prop) {
 			continue
 		}
 		if ct.Flags["trusted"] {
@@ -216,6 +226,9 @@ func cmdCheck(args []string) int {
 		}
 		fuc = append(fuc, key)
 		for _, m := range modesFor(ct) {
+			if prop == "C02" && m != COMPLETE {
+				continue
+			}
 			if err := e.verifyFunction(fn, ct, m); err != nil {
 				inconclusive = append(inconclusive, "outside-reach "+err.Error())
 			}
@@ -355,6 +368,9 @@ func cmdCheck(args []string) int {
 	}
 	assumptions = append(assumptions, propertyAssumptions(prop)...)
 	assumptions = append(assumptions, ifaceAssumed...)
+	for _, k := range soundOnly {
+		assumptions = append(assumptions, "completeness NOT covered (contract is sound-only): "+k)
+	}
 	var used []string
 	for _, k := range sortedKeys(e.funcsUsed) {
 		st := "proved under its own contract check"
